@@ -246,6 +246,9 @@ func checkC13(c C13Case, r *Rec) *Violation {
 			continue
 		}
 		// the dump compiles under the same names, optimizations off, prefix notation
+		if mask == c.Masks[0] {
+			foreignActivity(int(hash64(src) % 1000))
+		}
 		log2 := &Log{}
 		cc2, _ := NewConfig(u, log2, Build{Mask: 0})
 		e2, co2 := SafeCompile(cc2, d)
